@@ -330,6 +330,10 @@ func (g *c04Gen) newStage(ins []c04Param, byArg string, noMapOuts bool) *c04Stag
 		ch.Write = append(ch.Write, cw...)
 		b, _ := json.Marshal(map[string]interface{}{"co": "@F/" + n})
 		ch.Outs = b
+		if st.NChunks >= 2 && g.r.Intn(2) == 0 {
+			ch.RmTmp0 = true
+			g.feat("chunk0_removes_its_tmp_dir")
+		}
 		st.Files["chunk"] = ch
 		st.Files["join"] = g.phaseSpec(st, true)
 	} else {
